@@ -1,0 +1,47 @@
+// Verification hooks: compiled only with `--cfg facebook_akd_verif`. Nothing in here changes
+// the behaviour of the library; it only exposes crate-private pure operations.
+
+//! Hooks for an external conformance harness (guarded by `--cfg facebook_akd_verif`)
+
+use crate::append_only_zks::AzksElementSet;
+use crate::{AzksElement, Configuration, NodeLabel};
+
+/// Result of the element-set operations for one representation of the set
+pub struct ElementSetOps {
+    /// true if the set was represented as BinarySearchable
+    pub binary_searchable: bool,
+    /// left part of partition(prefix)
+    pub left: Vec<AzksElement>,
+    /// right part of partition(prefix)
+    pub right: Vec<AzksElement>,
+    /// get_longest_common_prefix()
+    pub lcp: NodeLabel,
+    /// contains_prefix(prefix)
+    pub contains_prefix: bool,
+}
+
+fn ops<TC: Configuration>(set: AzksElementSet, prefix: NodeLabel) -> ElementSetOps {
+    let binary_searchable = matches!(set, AzksElementSet::BinarySearchable(_));
+    let lcp = set.get_longest_common_prefix::<TC>();
+    let contains_prefix = set.contains_prefix(&prefix);
+    let (left, right) = set.partition(prefix);
+    ElementSetOps {
+        binary_searchable,
+        left: left.to_vec(),
+        right: right.to_vec(),
+        lcp,
+        contains_prefix,
+    }
+}
+
+/// Runs partition / get_longest_common_prefix / contains_prefix on the set built by
+/// `AzksElementSet::from` and, additionally, on the same elements forced into the
+/// `Unsorted` representation.
+pub fn element_set_ops<TC: Configuration>(
+    nodes: Vec<AzksElement>,
+    prefix: NodeLabel,
+) -> (ElementSetOps, ElementSetOps) {
+    let natural = ops::<TC>(AzksElementSet::from(nodes.clone()), prefix);
+    let unsorted = ops::<TC>(AzksElementSet::Unsorted(nodes), prefix);
+    (natural, unsorted)
+}
